@@ -33,6 +33,7 @@ func TestMain(m *testing.M) { evid.Main("C08", m) }
 // blocks and inside the iterator's own next()/return().
 const helpers = `
 var __inst = 0;
+function deepTry(d) { try { if (d > 0) deepTry(d - 1); } finally { } } // grows the VM's try stack while an iterator is being closed
 function mk(site, n, mode) {
   var id = site + '#' + (++__inst), i = 0;
   var it = {
@@ -47,6 +48,7 @@ function mk(site, n, mode) {
   };
   if (mode !== 'noReturn') it['return'] = function(v) {
     log(id + '.return');
+    deepTry(17);
     if (mode === 'throwReturn') throw new TypeError('return');
     if (mode === 'returnNonObject') return 7;
     return {};
